@@ -139,6 +139,7 @@ type LoadBalancer struct {
 	ctx              context.Context
 	cancel           context.CancelFunc
 	healthCheckWg    sync.WaitGroup
+	healthLoopDone   chan struct{} // closed when the active health check loop has returned (nil without active checks)
 	wsPool           *WebSocketPool
 }
 
@@ -298,7 +299,11 @@ func (lb *LoadBalancer) setupCircuitBreaker(cfg *config.Config) {
 
 func (lb *LoadBalancer) startHealthChecks() {
 	if lb.healthChecks.activeEnabled {
-		go lb.startActiveHealthChecks()
+		lb.healthLoopDone = make(chan struct{})
+		go func() {
+			defer close(lb.healthLoopDone)
+			lb.startActiveHealthChecks()
+		}()
 		logging.L().Info().Dur("interval", lb.healthChecks.activeInterval).Msg("active health checks enabled")
 	} else {
 		logging.L().Info().Msg("active health checks disabled")
@@ -342,6 +347,9 @@ func (lb *LoadBalancer) checkBackendsHealth() {
 
 	for _, backend := range backends {
 		vhook.Yield("lb.probe.add")
+		if lb.ctx.Err() != nil {
+			return // shutting down: no new probes
+		}
 		lb.healthCheckWg.Add(1)
 		go func(b *Backend) {
 			defer lb.healthCheckWg.Done()
@@ -917,6 +925,11 @@ func (lb *LoadBalancer) Stop() {
 	logging.L().Info().Msg("shutting down load balancer")
 	lb.cancel()
 	vhook.Yield("lb.stop.cancelled")
+	// The probe loop registers its probes with the wait group; wait for the loop
+	// itself first, so that no probe is registered while (or after) Stop waits.
+	if lb.healthLoopDone != nil {
+		<-lb.healthLoopDone
+	}
 	lb.healthCheckWg.Wait()
 
 	// Shutdown WebSocket pool if enabled
